@@ -114,7 +114,14 @@ func (language *Language) CompilerPasses() compiler.Passes {
 		&compiler.RenameNumericEnumValues{},
 		// members named after operators (`"<"`, `">"`) or names that only differ by case
 		&compiler.EnumMemberIdentifiers{Language: LanguageRef, Identifier: enumMemberIdentifier},
+		// fields whose names only differ by their case or their separators (`user_id`, `userId`)
+		&compiler.StructFieldIdentifiers{Language: LanguageRef, Identifier: structFieldIdentifier},
 	}
+}
+
+// structFieldIdentifier gives the name of the attribute declared for a struct field.
+func structFieldIdentifier(field ast.StructField) string {
+	return formatIdentifier(field.Name)
 }
 
 // enumMemberIdentifier gives the name of the attribute declared for an enum member.
